@@ -214,6 +214,41 @@ Qed.
 (* ---- on parsed files: the compiled fill_symbol IS symbolication, and it returns *)
 From RM Require Import C08.Proofs C11.Proofs2 C11.Proofs5.
 
+(* ---- parser.rs: the Line::Function arm of finish_item = finish_func, for the parser's integer types: after the
+   `size > 0` filter the closure's `l.size as u64 - 1` cannot trap and its Range::new cannot fail *)
+Lemma vec_mapM_ret {A B} (f : A -> outcome B) (g : A -> B) l :
+  (forall a, In a l -> f a = Ret (g a)) -> vec_mapM f l = Ret (map g l).
+Proof.
+  induction l as [|a t IH]; intros H; [reflexivity|]. cbn [vec_mapM map].
+  rewrite (H a (or_introl eq_refl)). cbn [obind]. rewrite IH by (intros b Hb; apply H; right; exact Hb). reflexivity.
+Qed.
+
+Lemma src_finish_function_eq p acc cur lines inls :
+  u64 (fn_addr cur) -> u32 (fn_size cur) -> Forall wf_line lines ->
+  src_finish_function p acc cur lines inls =
+  do r <- finish_func (mk_fraw (fn_addr cur) (fn_size cur) (fn_psize cur) (fn_name cur) lines inls);
+  Ret (acc ++ match r with Some e => [e] | None => [] end).
+Proof.
+  intros Ha Hs Hl. unfold src_finish_function, finish_func, finish_func_gen. cbn [fr_lines fr_inls fr_addr fr_size fr_psize fr_name].
+  rewrite (vec_mapM_ret _ (fun l => (mk_range_line (l_addr l) (l_size l), l))).
+  2:{ intros l Hin. apply filter_In in Hin. destruct Hin as [Hin Hgt]. apply Z.gtb_lt in Hgt.
+      rewrite Forall_forall in Hl. destruct (Hl l Hin) as [[Ha0 Ha1] [Hs0 Hs1]].
+      unfold chk_sub, chk. replace ((0 <=? l_size l - 1) && (l_size l - 1 <? 2 ^ 64)) with true.
+      2:{ symmetry. apply andb_true_iff. unfold two32 in Hs1. split; [apply Z.leb_le|apply Z.ltb_lt]; lia. }
+      cbn [obind]. unfold mk_range_line. destruct (checked_add 64 (l_addr l) (l_size l - 1)) as [e|] eqn:E; cbn [opt_mapM obind]; [|reflexivity].
+      unfold checked_add in E. cbv zeta in E. destruct (l_addr l + (l_size l - 1) <? 2 ^ 64); [|discriminate]. inversion E; subst e.
+      unfold range_new. replace (l_addr l + (l_size l - 1) <? l_addr l) with false by (symmetry; apply Z.ltb_ge; lia).
+      reflexivity. }
+  cbn [obind]. unfold line_entries.
+  rewrite (filter_ext (fun v_l : line_rec => l_size v_l >? 0) (fun l => 0 <? l_size l)) by (intros; apply Z.gtb_ltb).
+  destruct (build line_eqb _) as [tbl| | |]; cbn [obind]; try reflexivity.
+  unfold u64 in Ha. unfold u32 in Hs.
+  rewrite src_func_memory_range_eq by (cbn; lia). cbn [obind fn_addr fn_size func_set_inlinees func_set_lines].
+  unfold keep_inls.
+  rewrite (filter_ext (fun v_i : inl_rec => i_size v_i >? 0) (fun e => 0 <? i_size e)) by (intros; apply Z.gtb_ltb).
+  destruct (mk_range (fn_addr cur) (fn_size cur)); cbn [obind]; rewrite ?app_nil_r; reflexivity.
+Qed.
+
 Definition fuel_covers (st : symtab) (fuel : nat) : Prop :=
   forall r f, In (r, f) (st_funcs st) -> (length (fn_inls f) <= fuel)%nat.
 
@@ -243,6 +278,10 @@ Qed.
 
 (* everything the compiler produced, in one statement *)
 Lemma compiled_source_tie :
+  (forall p acc cur lines inls, u64 (fn_addr cur) -> u32 (fn_size cur) -> Forall wf_line lines ->
+     src_finish_function p acc cur lines inls =
+     do r <- finish_func (mk_fraw (fn_addr cur) (fn_size cur) (fn_psize cur) (fn_name cur) lines inls);
+     Ret (acc ++ match r with Some e => [e] | None => [] end)) /\
   (forall p f, 0 <= fn_addr f -> 0 <= fn_size f -> src_func_memory_range p f = Ret (mk_range (fn_addr f) (fn_size f))) /\
   (forall p w, 0 <= w_addr w -> 0 <= w_size w -> src_win_memory_range p w = Ret (win_range w)) /\
   (forall p f depth addr, src_get_inlinee_at_depth p f depth addr =
@@ -260,6 +299,7 @@ Lemma compiled_source_tie :
      fill_symbol p st mbase instr <> OutOfFuel ->
      src_fill_symbol p fuel st mbase instr = fill_symbol p st mbase instr).
 Proof.
+  split; [exact src_finish_function_eq|].
   split; [exact src_func_memory_range_eq|]. split; [exact src_win_memory_range_eq|].
   split; [exact src_get_inlinee_at_depth_eq|]. split; [exact src_get_outermost_sourceloc_eq|].
   split; [exact src_get_innermost_sourceloc_eq|]. split; [exact src_find_nearest_public_eq|].
